@@ -11,24 +11,34 @@ vars == <<pid, st>>
 P == Progs[pid]
 
 \* the observation step of an actor is local and always enabled: it is merged with the step that produced the answer
-RECURSIVE Settle(_, _, _)
-Settle(Pr, s, as) == IF as = {} THEN s
-                     ELSE LET a == CHOOSE x \in as : TRUE IN
-                          Settle(Pr, IF s.ph[a] = "answered" THEN Ret(Pr, s, a) ELSE s, as \ {a})
-SettleAll(Pr, s) == IF s.aborted THEN s ELSE Settle(Pr, s, Actors(Pr))
+\* (to a fixpoint: the termination of an actor can make a communication fail and so answer another actor)
+RECURSIVE SettleAll(_, _)
+SettleAll(Pr, s) ==
+  IF s.aborted \/ ~(\E a \in Actors(Pr) : s.ph[a] = "answered") THEN s
+  ELSE LET a == CHOOSE x \in Actors(Pr) : s.ph[x] = "answered" IN
+       SettleAll(Pr, IF MoreSub(Pr, s, a) THEN NextSub(Pr, s, a) ELSE Ret(Pr, s, a))
 
 Init == pid \in 1..Len(Progs) /\ st = S0(Progs[pid])
 
 Step(a) == st.ph[a] = "run" /\ st' = SettleAll(P, Handle(P, st, a))
-Fire(a) == st.ph[a] = "blocked" /\ Due(st, a) /\ st' = SettleAll(P, FireTimer(P, st, a))
+Fire(a) == CanFire(st, a) /\ st' = SettleAll(P, FireTimer(P, st, a))
+Comp(c) == CanComplete(st, c) /\ st' = SettleAll(P, Complete(P, st, c))
 Adv     == CanAdvance(P, st) /\ st' = Advance(P, st)
 
 Next == /\ ~st.aborted
         /\ UNCHANGED pid
         /\ \/ \E a \in Actors(P) : Step(a) \/ Fire(a)
+           \/ \E c \in 1..Len(st.act) : Comp(c)
            \/ Adv
 Spec == Init /\ [][Next]_vars
 
+I_MutexOwnership == MutexOwnership(P, st)
+I_MutexExclusion == MutexExclusion(P, st)
+I_SemConservation == SemConservation(P, st)
+I_CvConsistency == CvConsistency(P, st)
+I_BarrierGroups == BarrierGroups(P, st)
+I_PhaseConsistency == PhaseConsistency(P, st)
+I_CommExactlyOnce == CommExactlyOnce(P, st)
 Inv == KernelInv(P, st)
 
 \* C03: the clock never goes backwards; C04: FIFO hand-off of mutexes; C05/C06: FIFO queues only shrink from the head
@@ -48,6 +58,17 @@ MutexFifoHandoff ==
 SemFifo ==
   [][\A x \in Sems(P) :
         (st.sq[x] # <<>> /\ st'.nrel[x] = st.nrel[x] + 1) => st'.sq[x] = Tail(st.sq[x]) /\ st'.ngr[x] = st.ngr[x] + 1]_vars
+\* C08 / C09: a matching takes the oldest queued entry of the opposite kind (entries leave a queue from the first match)
+MailboxFifo ==
+  [][\A b \in Mboxes(P) : \A i \in 1..Len(st.mbq[b]) :
+        LET c == st.mbq[b][i] IN
+        (st.act[c].st = "wait" /\ st'.act[c].st = "run") =>
+            \A j \in 1..(i - 1) : IsSend(st.act[st.mbq[b][j]]) # IsSend(st.act[c])]_vars
+MessFifo ==
+  [][\A q \in Mqs(P) : \A i \in 1..Len(st.mqq[q]) :
+        LET c == st.mqq[q][i] IN
+        (st.act[c].st = "wait" /\ st'.act[c].st = "done") =>
+            \A j \in 1..(i - 1) : IsSend(st.act[st.mqq[q][j]]) # IsSend(st.act[c])]_vars
 CvFifo ==
   [][\A c \in Cvs(P) : IsPrefixOrLeaver(st.cq[c], st'.cq[c])]_vars
 
